@@ -9,5 +9,8 @@ CONSTANTS
   MaxRej = 1
   Impl = "fixed"
   Sym = TRUE
-INVARIANTS TypeOK R0ok R1ok R2ok R3ok R4ok R6ok
+  NCallers = 0
+  Removal = "skip"
+  Emit = "terminal"
+INVARIANTS TypeOK Gone R0ok R1ok R2ok R3ok R4ok R6ok
 CHECK_DEADLOCK FALSE
